@@ -308,7 +308,7 @@ def macro_steps(beh):
         elif act in ('Crash', 'CrashWhileReplying'):
             s = [i + 1 for i, (a, b) in enumerate(zip(prev['sub'], st['sub'])) if a['alive'] and not b['alive']][0]
             if cur is None or prev['pc'] == 'idle':
-                steps.append({'op': 'kill', 's': s})
+                steps.append({'op': 'kill', 's': s, 'expect': project(st)})
             elif act == 'CrashWhileReplying':
                 cur['faults'].append({'n': dumps - 1, 'fault': ['trunc', 0.5]})
             elif prev['pc'] == 'wait' and prev['wire'][s - 1] == 'req':
